@@ -750,6 +750,12 @@ func init() {
 	}
 	I["(k8s.io/apimachinery/third_party/forked/golang/reflect.Equalities).DeepEqual"] = I["(*k8s.io/apimachinery/third_party/forked/golang/reflect.Equalities).DeepEqual"]
 
+	I[repoMod+"/pkg/utils/cmp.IsJSONEqual"] = func(p *Path, a []Value, _ *ssa.CallCommon) Value {
+		p.jsonEq++
+		defer func() { p.jsonEq-- }()
+		return TupleVal{p.deepEqual(a[0], a[1], 0), IfaceVal{}}
+	}
+
 	// ---------- regexp (host, concrete inputs only) ----------
 	I["regexp.MustCompile"] = func(p *Path, a []Value, _ *ssa.CallCommon) Value {
 		return HostVal{regexp.MustCompile(cstr(p, a[0], "regexp"))}
@@ -1332,7 +1338,7 @@ func (p *Path) deepEqual(a, b Value, depth int) *Term {
 		if !ok {
 			return tFalse
 		}
-		if (x.b == nil) != (y.b == nil) {
+		if p.jsonEq == 0 && (x.b == nil) != (y.b == nil) {
 			return tFalse
 		}
 		if x.len != y.len {
@@ -1347,6 +1353,18 @@ func (p *Path) deepEqual(a, b Value, depth int) *Term {
 		y, ok := b.(MapVal)
 		if !ok {
 			return tFalse
+		}
+		if p.jsonEq > 0 {
+			xl, yl := 0, 0
+			if x.m != nil {
+				xl = x.m.length()
+			}
+			if y.m != nil {
+				yl = y.m.length()
+			}
+			if xl == 0 && yl == 0 {
+				return tTrue
+			}
 		}
 		if (x.m == nil) != (y.m == nil) {
 			return tFalse
